@@ -52,13 +52,18 @@ impl Property for C20 {
         "C20"
     }
     fn rule(&self) -> String {
-        "Cases: (LHS operand, RHS vector of any type/length or native integer, operator in {+,-,*,/,%,&,|,^,<<,>>,!}). For each case ALL forms are applied side by side: &a.&b, a.&b, &a.b, a.b, a.=&b, a.=b (6 shift forms; 2 for !); for a native x additionally the same operator with a vector built from x as Bvd, Bv and Bvf<u64,3>, and for shifts the same amount in every native type that can hold it. Oracle: every form's result equals the model result (same length, same bits, light battery) - or every form panics when the divisor is zero - and the operands re-read after all by-reference uses and after in-place operations on clones equal their pre-call snapshots (bits, bytes, capacity). Enumerated: all (n,a,m,b) n,m<=3 (quick)/<=5 (thorough) x 20x20 pairings x 8 binary operators x 6 forms, and shifts/! on all values n<=4/6 x all amounts 0..n+1 x 6 amount types x 6 forms. Non-trivial: n>0 and the result differs from a. Distinct by hash of the case.".into()
+        "Cases: (LHS operand, RHS vector of any type/length or native integer, operator in {+,-,*,/,%,&,|,^,<<,>>,!}). For each case ALL forms are applied side by side: &a.&b, a.&b, &a.b, a.b, a.=&b, a.=b (6 shift forms; 2 for !); for a native x additionally the same operator with a vector built from x as Bvd, Bv and Bvf<u64,3>, and for shifts the same amount in every native type that can hold it. Oracle: every form's result equals the model result (same length, same bits, light battery) - or every form panics when the divisor is zero - and the operands re-read after all by-reference uses and after in-place operations on clones equal their pre-call snapshots (bits, bytes, capacity). Enumerated: all (n,a,m,b) n,m<=3 (quick)/<=5 (thorough) x 20x20 pairings x 8 binary operators x 6 forms, and shifts/! on all values n<=4/6 x all amounts 0..n+1 x 6 amount types x 6 forms; long vectors: 1100..4097 bits on Bvd/Bv/the 2560-bit type, the 70 400-bit fixed type at 7 lengths and a geometric ladder of lengths around every power of two from 2^14 to 2^19 (thorough 2^21) bits on Bvd/Bv with 7 shift amounts, ! and the binary operators (division up to 4200 bits, multiplication up to 2^17). Non-trivial: n>0 and the result differs from a. Distinct by hash of the case.".into()
     }
     fn random_cases(&self, tier: Tier) -> u64 {
         tier.pick(125000, 4800000)
     }
     fn strategy(&self, tier: Tier) -> BoxedStrategy<C20Case> {
-        let bin = (arb_operand(tier), arb_rhs(tier), 0usize..8).prop_map(|(a, b, o)| C20Case { a, b, op: AnyOp::Bin(BIN_OPS[o]) });
+        let bin = (arb_operand(tier), arb_rhs(tier), 0usize..8).prop_map(|(mut a, b, o)| {
+            if matches!(BIN_OPS[o], BinOp::Div | BinOp::Rem) {
+                clamp_huge_dividend(&mut a);
+            }
+            C20Case { a, b, op: AnyOp::Bin(BIN_OPS[o]) }
+        });
         let lmax = lmax_dyn(tier);
         let sh = (arb_operand(tier), arb_nat(), any::<u16>(), any::<bool>(), any::<bool>()).prop_map(move |(a, x, f, rel, left)| {
             // half of the amounts are placed relative to the length (0..=n+1)
@@ -77,8 +82,8 @@ impl Property for C20 {
     }
     fn enumerate(&self, tier: Tier, sh: &mut Shard, f: &mut dyn FnMut(C20Case) -> bool) {
         let k = tier.pick(3, 5);
-        for lt in 0..NT {
-            for rt in 0..NT {
+        for lt in ROUTINE_TIDS {
+            for rt in ROUTINE_TIDS {
                 if !sh.mine() {
                     continue;
                 }
@@ -89,7 +94,7 @@ impl Property for C20 {
                                 for op in BIN_OPS {
                                     for pa in scope_provs(lt) {
                                         for pb in scope_provs(rt) {
-                                            let c = C20Case { a: Operand { ty: lt, bits: a.clone(), prov: pa.clone() }, b: Rhs::V(Operand { ty: rt, bits: b.clone(), prov: pb }), op: AnyOp::Bin(op) };
+                                            let c = C20Case { a: Operand::fitted(lt, a.clone(), pa.clone()), b: Rhs::V(Operand::fitted(rt, b.clone(), pb)), op: AnyOp::Bin(op) };
                                             if !f(c) {
                                                 return;
                                             }
@@ -131,8 +136,47 @@ impl Property for C20 {
                 }
             }
         }
+        // the 70 400-bit fixed type and a geometric ladder of lengths up to megabits (Bvd, Bv):
+        // every form of shifts around word, 4096-bit and 2^16 boundaries and of the binary
+        // operators (division only where it is affordable)
+        let mut long: Vec<(Tid, usize)> = HUGE_TYPE_LENS.iter().map(|&n| (TID_HUGE, n)).collect();
+        // (every case applies six forms, each followed by a battery: the ladder stops at 2^19 bits
+        // in the quick tier and uses fewer operators above 2^17)
+        let top = (1usize << tier.pick(19, 21)) + (1 << 18);
+        long.extend(ladder_lengths(tier).into_iter().filter(|&(_, n)| n <= top));
+        for (t, n) in long {
+            if !sh.mine() {
+                continue;
+            }
+            let a = dense_value(n);
+            for (j, k) in [1usize, 64, 65, 4099, 65_541, n / 2 + 3, n - 1].into_iter().enumerate() {
+                if n > (1 << 17) + 5000 && j % 2 == 1 {
+                    continue;
+                }
+                if k >= n {
+                    continue;
+                }
+                let op = if (j + n) % 2 == 0 { AnyOp::Shl } else { AnyOp::Shr };
+                if !f(C20Case { a: Operand::canon(t, a.clone()), b: Rhs::N(Nat::new(NAT_TYS[2 + j % 4], k as u128)), op }) {
+                    return;
+                }
+            }
+            if !f(C20Case { a: Operand::canon(t, a.clone()), b: Rhs::N(Nat::new(NatTy::U8, 0)), op: AnyOp::Not }) {
+                return;
+            }
+            let other = if t == TID_D { TID_A } else { TID_D };
+            for op in BIN_OPS {
+                let div = matches!(op, BinOp::Div | BinOp::Rem);
+                if (div && n > HUGE_DIV_MAX) || (n > (1 << 17) + 5000 && !matches!(op, BinOp::Add | BinOp::Or | BinOp::Sub)) {
+                    continue;
+                }
+                if !f(C20Case { a: Operand::canon(t, a.clone()), b: Rhs::V(Operand::canon(other, dense_value(n / 2 + 3))), op: AnyOp::Bin(op) }) {
+                    return;
+                }
+            }
+        }
         let ks = tier.pick(4, 6);
-        for t in 0..NT {
+        for t in ROUTINE_TIDS {
             if !sh.mine() {
                 continue;
             }
